@@ -96,7 +96,8 @@ def run_e2e(case):
     env = lab.env
     size = case["nseg"] * MSS
     cc = TCPCubic() if case["cc"] == "cubic" else TCPReno()
-    flow = Flow(flow_id=1, src="snd", dst="rcv", finish_time=inf, size=size)
+    fin = case.get("finish") or inf       # a flow may also be bounded in time: it stops producing new data at finish_time
+    flow = Flow(flow_id=1, src="snd", dst="rcv", finish_time=fin, size=size)
     snd = TCPPacketGenerator(env, flow, cc, element_id="snd", rtt_estimate=case["rtt0"])
     sink = TCPSink(env)
     w1 = Wire(env, lambda: case["d1"])
@@ -118,7 +119,11 @@ def run_e2e(case):
     data_tap.on_put = on_data
 
     def done():
-        return snd.last_ack == size and sink.recv_buffer == [[0, size]]
+        if fin == inf:
+            return snd.last_ack == size and sink.recv_buffer == [[0, size]]
+        # bounded in time: everything that was sent has to get through - the flow ends where the sender stopped producing
+        end = snd.next_seq
+        return (end == size or env.now >= fin) and snd.last_ack == end and sink.recv_buffer == ([[0, end]] if end else [])
     finished_at = None
     while env.peek() < HORIZON:
         lab.steps += 1
@@ -134,7 +139,7 @@ def run_e2e(case):
             finished_at = env.now
     if not done():
         raise Violation("C16.reliability", f"agenda {'empty' if env.peek() == inf else 'beyond the horizon'} at t={env.now}: sender "
-                                           f"last_ack={snd.last_ack} of {size}, sink holds {sink.recv_buffer}; {len(data_tap.recs)} data "
+                                           f"last_ack={snd.last_ack} of {size if fin == inf else snd.next_seq}, sink holds {sink.recv_buffer}; {len(data_tap.recs)} data "
                                            f"and {len(ack_tap.recs)} ACK transmissions", "C16.reliability")
     if env.peek() != inf:
         # After a long outage the backed-off RTO can exceed the horizon; the sleepers of timers that were stopped when their
@@ -153,12 +158,17 @@ def run_e2e(case):
         classes.add("ACK drop")
     if 0 in dropped_d:
         classes.add("first segment dropped")
+    if fin != inf:
+        classes.add("flow bounded in time")
+        if snd.next_seq < size:
+            classes.add("flow ended by its finish time with data outstanding or unsent")
     ids = [r.snap[0] for r in data_tap.recs]
     if len(ids) > len(set(ids)):
         classes.add("retransmission")
     if not dropped_d and not dropped_a and rto_ok["v"]:
         classes.add("loss-free, rtt < RTO")
-        if len(ids) != len(set(ids)) or len(ids) != case["nseg"]:
+        n_expected = case["nseg"] if fin == inf else snd.next_seq // MSS
+        if len(ids) != len(set(ids)) or len(ids) != n_expected:
             dup = sorted({i for i in ids if ids.count(i) > 1})
             raise Violation("C16.no_spurious_retx", f"loss-free path with rtt {rtt} < RTO throughout, but segments {dup[:5]} were "
                                                     f"transmitted more than once ({len(ids)} transmissions for {case['nseg']} segments)",
@@ -200,7 +210,8 @@ def e2e_strategy(tier):
         "which": st.sampled_from(["data", "data", "ack"]), "win": win}).map(
         lambda d: dict({k: v for k, v in d.items() if k not in ("which", "win")},
                        drop_data=d["win"] if d["which"] == "data" else [], drop_ack=d["win"] if d["which"] == "ack" else []))
-    return kgen.weighted([(lossy, 4), (clean, 1), (outage, 1)])
+    timed = lossy.flatmap(lambda c: st.sampled_from([0.5, 1, 2.5, 5, 1.05]).map(lambda f: dict(c, finish=f)))
+    return kgen.weighted([(lossy, 4), (clean, 1), (outage, 1), (timed, 1)])
 
 
 PROP = Property(
@@ -217,6 +228,7 @@ PROP = Property(
     facets=[Facet("sink", sink_strategy, run_sink, quick=2500, thorough=8000, exhaustive=sink_exhaustive,
                   essential=["gap later filled", "duplicate arrival", "first segment missing at first", "multi-MSS segment"]),
             Facet("e2e", e2e_strategy, run_e2e, quick=1500, thorough=6000,
-                  essential=["data drop", "ACK drop", "first segment dropped", "retransmission", "loss-free, rtt < RTO"])],
+                  essential=["data drop", "ACK drop", "first segment dropped", "retransmission", "loss-free, rtt < RTO",
+                             "flow ended by its finish time with data outstanding or unsent"])],
     assumptions=["liveness is judged in bounded form: agenda exhaustion or the 1e9 s horizon; step budget => inconclusive"],
 )
